@@ -6,18 +6,18 @@ PROPS = {
     'C02': ['contracts.c12_cbc_check', 'contracts.recordlayer', 'contracts.m2_recordlayer', 'contracts.m2_recordio', 'contracts.m2_getmsg', 'contracts.defragmenter', 'contracts.ciphers'],
     'C18': ['contracts.sessioncache'],
     'C19': ['contracts.settings', 'contracts.m2_server'],
-    'C20': ['contracts.suites', 'contracts.m2_client', 'contracts.m2_server'],
-    'C03': ['contracts.suites', 'contracts.m2_client', 'contracts.m2_server', 'contracts.m2_keyschedule', 'contracts.m2_tls13_states', 'contracts.m2_exporter'],
+    'C20': ['contracts.suites', 'contracts.m2_client', 'contracts.m2_server', 'contracts.m2_factory'],
+    'C03': ['contracts.suites', 'contracts.m2_client', 'contracts.m2_server', 'contracts.m2_keyschedule', 'contracts.m2_tls13_states', 'contracts.m2_exporter', 'contracts.m2_factory'],
     'C05': ['contracts.m2_client13', 'contracts.m2_client', 'contracts.m2_posthandshake', 'contracts.m2_server', 'contracts.m2_signverify', 'contracts.m2_binders', 'contracts.m2_server13'],
     'C04': ['contracts.m2_client', 'contracts.m2_getmsg', 'contracts.m2_server', 'contracts.m2_keyschedule', 'contracts.m2_binders'],
     'C06': ['contracts.m2_client', 'contracts.m2_getmsg', 'contracts.defragmenter', 'contracts.m2_server13'],
-    'C13': ['contracts.m2_client', 'contracts.m2_posthandshake', 'contracts.m2_server', 'contracts.small_extras', 'contracts.m2_binders', 'contracts.m2_server13'],
-    'C09': ['contracts.kdf', 'contracts.ciphers', 'contracts.m2_tls13_states', 'contracts.m2_exporter'],
-    'C15': ['contracts.codec', 'contracts.messages_simple', 'contracts.extensions_codec'],
-    'C08': ['contracts.codec', 'contracts.messages_simple', 'contracts.m2_recordlayer', 'contracts.m2_getmsg', 'contracts.m2_posthandshake', 'contracts.m2_recordio', 'contracts.m2_server', 'contracts.transport', 'contracts.m2_parse_safety', 'contracts.m2_decompress', 'contracts.m2_ext_none', 'contracts.extensions_codec'],
-    'C14': ['contracts.m2_recordlayer', 'contracts.m2_getmsg', 'contracts.defragmenter', 'contracts.transport', 'contracts.m2_asyncsm'],
+    'C13': ['contracts.m2_client', 'contracts.m2_posthandshake', 'contracts.m2_server', 'contracts.small_extras', 'contracts.m2_binders', 'contracts.m2_server13', 'contracts.m2_factory'],
+    'C09': ['contracts.kdf', 'contracts.ciphers', 'contracts.m2_tls13_states', 'contracts.m2_exporter', 'contracts.links'],
+    'C15': ['contracts.codec', 'contracts.messages_simple', 'contracts.extensions_codec', 'contracts.x509_dc'],
+    'C08': ['contracts.codec', 'contracts.messages_simple', 'contracts.m2_recordlayer', 'contracts.m2_getmsg', 'contracts.m2_posthandshake', 'contracts.m2_recordio', 'contracts.m2_server', 'contracts.transport', 'contracts.m2_parse_safety', 'contracts.m2_decompress', 'contracts.m2_ext_none', 'contracts.extensions_codec', 'contracts.links'],
+    'C14': ['contracts.m2_recordlayer', 'contracts.m2_getmsg', 'contracts.defragmenter', 'contracts.transport', 'contracts.m2_asyncsm', 'contracts.links'],
     'C16': ['contracts.m2_recordlayer', 'contracts.m2_getmsg', 'contracts.m2_posthandshake', 'contracts.sendmsg', 'contracts.m2_tls13_states'],
-    'C17': ['contracts.m2_recordlayer', 'contracts.m2_getmsg', 'contracts.m2_posthandshake', 'contracts.transport'],
+    'C17': ['contracts.m2_recordlayer', 'contracts.m2_getmsg', 'contracts.m2_posthandshake', 'contracts.transport', 'contracts.links'],
     'C11': ['contracts.c12_cbc_check', 'contracts.rsa', 'contracts.m2_server', 'contracts.small_extras'],
     'C10': ['contracts.c12_cbc_check', 'contracts.rsa', 'contracts.kex', 'contracts.m2_signverify', 'contracts.small_extras'],
 }
